@@ -636,6 +636,17 @@ func CheckC12(tier string, seed uint64, rep *core.Reporter) (*core.Evidence, err
 				doRun(&c12Run{ID: fmt.Sprintf("%d-go%d", wi, k), Files: s2.ProjectFiles(g2), Pre: clone(), Kind: "regenerate-go-only-edit",
 					Op: Op{Kind: "Gen", Binary: []string{"sim", "plain"}[r.Intn(2)], Map: randMap(r), Cwd: cwdModes[r.Intn(len(cwdModes))]}})
 			}
+			// a specification without parser rules, fresh and over the output of the full one
+			{
+				ls := cloneSpec(spec)
+				ls.Rules = nil
+				lg := gv
+				lg.Defect = "no-methods"
+				doRun(&c12Run{ID: fmt.Sprintf("%d-lx0", wi), Files: ls.ProjectFiles(lg), Kind: "lexer-only-spec",
+					Op: Op{Kind: "Gen", Binary: "sim", Map: randMap(r), Cwd: cwdModes[r.Intn(len(cwdModes))]}})
+				doRun(&c12Run{ID: fmt.Sprintf("%d-lx1", wi), Files: ls.ProjectFiles(lg), Pre: clone(), Kind: "lexer-only-spec",
+					Op: Op{Kind: "Gen", Binary: []string{"sim", "plain"}[r.Intn(2)], Map: randMap(r), Cwd: cwdModes[r.Intn(len(cwdModes))]}})
+			}
 			// declarations made twice: a mode block, a token, a parser rule, a macro
 			for k := 0; k < 2; k++ {
 				cs := cloneSpec(spec)
